@@ -86,8 +86,15 @@ def variants(desc):
         d['algs'][i]['svs'][0]['ver'] = [2, 0, 0]
         out.append((f"sv:{a['t']}.{a['n']}.{a['svs'][0]['n']}", d))
         d = copy.deepcopy(desc)
-        d['algs'][i]['svs'][-1]['vals'][-1]['ver'] = [1, 0, 1]
+        withvals = [s for s in d['algs'][i]['svs'] if s['vals']]
+        withvals[-1]['vals'][-1]['ver'] = [1, 0, 1]
         out.append((f"val:{a['t']}.{a['n']}", d))
+        for j, s in enumerate(a['svs']):
+            if not s['vals']:
+                # a state vector whose keys only appear at run time
+                d = copy.deepcopy(desc)
+                d['algs'][i]['svs'][j]['ver'] = [3, 0, 0]
+                out.append((f"keyless-sv:{a['t']}.{a['n']}.{s['n']}", d))
     return out
 
 
@@ -101,6 +108,10 @@ def versions_of(desc, tag):
     a = [x for x in desc['algs'] if (x['t'], x['n']) == (t, n)][0]
     out = {tag: vstr(a['ver'])}
     for s in a['svs']:
+        if not s['vals']:
+            # no value, nothing the store can record a version for: such a
+            # state vector takes no part in the comparison
+            continue
         out[f"{tag}.{s['n']}"] = vstr(s['ver'])
         for v in s['vals']:
             out[f"{tag}.{s['n']}.{v['n']}"] = vstr(v['ver'])
@@ -231,6 +242,9 @@ def run(ctx):
     names = ['single', 'chain2', 'pair', 'task-analysis', 'regress-leaf']
     if not ctx.quick():
         names += ['chain3', 'fork', 'join', 'task-analysis-task']
+    E['keyless'] = {'style': 'legacy', 'algs': [
+        aegen.alg('ta', 'a', svs=[aegen.sv('s'), aegen.sv('dyn', vals=())]), aegen.alg('tb', 'b')]}
+    names.append('keyless')
     jobs = [(ctx.tier, ctx.seed, n, E[n]) for n in names]
     outcomes = set()
     for r in common.pmap(work_b, jobs):
